@@ -5,8 +5,9 @@ import json
 SETUP = "cd /verif/tool && GOFLAGS=-mod=mod GOPROXY=off GOSUMDB=off GOTOOLCHAIN=local go1.26.8 build -o /verif/bin/verifctl ./cmd/verifctl"
 
 TB = ("Trusted base: the AST instrumentation of the scratch copy preserves vFlow's meaning (checked by running the stock test "
-      "suite on an instrumented copy); the seeded scheduler serializes execution (code takes zero simulated time, critical "
-      "sections are atomic); the Go runtime, encoding/json, yaml and testing/synctest; sampling, not enumeration: a clean batch is evidence, not proof.")
+      "suite on an instrumented copy, and by behaviour-preserving refactorings that must pass); the seeded scheduler serializes "
+      "execution between scheduling points (code takes zero simulated time; program mutexes are simulated, so tasks are also "
+      "descheduled inside critical sections); the Go runtime, encoding/json, yaml and testing/synctest; sampling, not enumeration: a clean batch is evidence, not proof.")
 
 # id -> (category, technique, text, note-extra, design_ref)
 CHECKS = {
@@ -42,8 +43,8 @@ CHECKS = {
  "C09": ("fault_enumeration", "metamorphic checks on the real decoder under the simulator: insertion of undecodable sets at set boundaries; truncation (transport fault) enumerated over every octet offset",
          "For seeded well-formed IPFIX/v9 messages: (a) inserting a reserved-id set, an unknown-template set or a data set over an element missing from the model at any set boundary leaves the other sets' records unchanged; (b) for every truncation offset 0..len (all offsets in thorough and in a quarter of quick runs) the records emitted are a prefix of the complete datagram's records.",
          "Fault enumeration over the truncation point per message; messages themselves are sampled.", "7 C09"),
- "C10": ("exploration", "deterministic simulation: N tasks decode/announce, dump and peer-get concurrently under the seeded scheduler (yields at every lock operation); porcupine per key; the same runs in a -race build with the scheduler's hand-offs hidden from the detector",
-         "2..7 tasks issue announcements, data decodes, Dump to the simulated disk and IRPC.Get over overlapping keys; oracles: no panic, every observed template is a complete announced version of that key, per-key linearizability (porcupine), every dump loads back, and in the race build zero race reports between cache-package operations (blindness canary checked at the start of every race worker).",
+ "C10": ("exploration", "deterministic simulation: N tasks decode/announce, dump and peer-get concurrently under the seeded scheduler (program mutexes simulated: yields at every lock operation and inside critical sections, lock waits as scheduler states, circular waits reported as deadlock); porcupine per key; the same runs in a -race build with the scheduler's hand-offs hidden from the detector",
+         "2..7 tasks issue announcements, data decodes, Dump to the simulated disk and IRPC.Get over overlapping keys; oracles: no panic, no deadlock, every observed template is a complete announced version of that key, per-key linearizability (porcupine), every dump loads back, and in the race build zero race reports between cache-package operations (blindness canary checked at the start of every race worker).",
          "Race reports are violations only when both sides are template-cache package code. The detector keeps a bounded history per word.", "7 C10"),
  "C11": ("fault_enumeration", "simulated disk: crash-point enumeration over every prefix of the dumped file plus torn tails, byte- and structure-level corruptions, absent/empty/unreadable files; reload with the real GetCache and probe every saved key",
          "Caches built by decoding seeded template messages (plain/options/enterprise, re-announcements) are dumped; the intact file must round-trip (every saved key decodes byte-identically); every prefix (all in thorough, boundaries + 60 samples in quick), torn tails, flips, deletions, insertions and 19 structural edits must load without panic into a usable cache in which saved keys decode as before or are unknown.",
